@@ -481,6 +481,15 @@ func (x *Exec) Pick(ms []Move) Move {
 	return ms[x.Rng.Intn(len(ms))]
 }
 
+// NextWanted returns the label the schedule being followed asks for next ("" when none is followed
+// any more): drivers use it to offer environment moves that seeded executions enable by chance.
+func (x *Exec) NextWanted() string {
+	if x.Diverged || x.schedPos >= len(x.Sched) {
+		return ""
+	}
+	return strings.TrimPrefix(x.Sched[x.schedPos], "~")
+}
+
 // SchedDone reports whether the whole schedule was followed.
 func (x *Exec) SchedDone() bool { return !x.Diverged && x.schedPos >= len(x.Sched) }
 
